@@ -213,6 +213,10 @@ def run_harness(binary, outjson, args=(), seed=1, tier="quick", timeout=900, ext
     if os.path.exists(outjson):
         try:
             data = json.load(open(outjson))
+            if isinstance(data, dict):      # a Go nil slice is written as null
+                for k in ("cases", "impl_failures", "notes"):
+                    if data.get(k) is None:
+                        data[k] = []
         except Exception as e:  # noqa
             out += "\n[bad harness json: %s]" % e
     return rc, out, data, dt
@@ -235,6 +239,7 @@ def run_cases_in_coq(pid, module, cases, shard_size=120, timeout=600, imports=()
     shutil.rmtree(wdir, ignore_errors=True)
     os.makedirs(wdir, exist_ok=True)
     shards = []
+    cases = cases or []
     live = [c for c in cases if c["coq"] != "crashed"]
     for i in range(0, len(live), shard_size):
         chunk = live[i:i + shard_size]
